@@ -718,6 +718,8 @@ class QubitCircuit:
         """
         Method to resolve two qubit gates with non-adjacent control/s or
         target/s in terms of gates with adjacent interactions.
+        CNOT, CSIGN and the swap-type gates are resolved; all other gates
+        are kept unchanged and in order.
 
         Returns
         -------
@@ -840,10 +842,9 @@ class QubitCircuit:
                     i += 1
 
             else:
-                raise NotImplementedError(
-                    "`adjacent_gates` is not defined for "
-                    "gate {}.".format(gate.name)
-                )
+                # Any other gate is kept unchanged, as in
+                # `to_chain_structure`.
+                temp.gates.append(gate)
 
         temp.gates = deepcopy(temp.gates)
 
